@@ -164,14 +164,14 @@ func genC09(t *rapid.T, protos []vt.NamedProto) c09Case {
 	nm := rapid.IntRange(1, 6).Draw(t, "nmsgs")
 	for i := 0; i < nm; i++ {
 		c.Msgs = append(c.Msgs, c09Msg{
-			Kind:  rapid.SampledFrom([]string{"call", "call", "push"}).Draw(t, "mkind"),
+			Kind: rapid.SampledFrom([]string{"call", "call", "push"}).Draw(t, "mkind"),
 			Level: func() int {
 				if c.Unknown && rapid.IntRange(0, 2).Draw(t, "tounknown") == 0 {
 					return -1
 				}
 				return rapid.IntRange(0, c.Depth).Draw(t, "mlevel")
 			}(),
-			Act:   rapid.SampledFrom([]string{"ret", "ret", "err"}).Draw(t, "mact"),
+			Act: rapid.SampledFrom([]string{"ret", "ret", "err"}).Draw(t, "mact"),
 		})
 	}
 	return c
